@@ -1,6 +1,6 @@
 import JediModel.Proto
 import JediModel.Model.ObjModel
-import JediModel.Props.C13
+import JediModel.Model.ObjCfg
 open Lean Proto JediModel.ObjModel
 
 def parseTag (s : String) : Tag :=
